@@ -86,7 +86,33 @@ def main():
     import psutil
     a, st = psutil.net_if_addrs(), psutil.net_if_stats()
     after = kernel()
-    print(json.dumps({
+    # a lookup that fails (an interface that is not there) must leave no trace: the same answers
+    # afterwards, and no descriptor of the program touched
+    from psutil import _psutil_posix as cext_posix
+    failed = []
+    for name in ("verif-gone-0", "", "x" * 40):
+        for fn in ("net_if_mtu", "net_if_flags", "net_if_is_running"):
+            try:
+                getattr(cext_posix, fn)(name)
+                failed.append("%s(%r) returned" % (fn, name))
+            except OSError:
+                pass
+            except Exception as e:
+                failed.append("%s(%r) raised %r" % (fn, name, e))
+    mine = [os.open("/proc/self/stat", os.O_RDONLY) for _ in range(4)]
+    try:
+        st2 = psutil.net_if_stats()
+        again = {k: [v.isup, v.mtu, v.flags] for k, v in st2.items()}
+    except Exception as e:
+        again = "raised %r" % (e,)
+    fds_ok = []
+    for fd in mine:
+        try:
+            fds_ok.append(os.read(fd, 4) != b"")
+            os.close(fd)
+        except OSError as e:
+            fds_ok.append("descriptor %d of the program: %r" % (fd, e))
+    print(json.dumps({"again": again, "failed_lookups": failed, "fds_ok": fds_ok,
         "made": made, "before": before, "after": after, "file": psutil.__file__,
         "addrs": {k: [[int(x.family), x.address, x.netmask] for x in v] for k, v in a.items()},
         "stats": {k: [v.isup, v.mtu, v.flags] for k, v in st.items()}}))
